@@ -127,11 +127,16 @@ type OpLevel struct {
 }
 
 type OpTable struct {
-	Levels  []OpLevel // Levels[i] has precedence i+1
-	Order   int       // 0 ascending, 1 descending, 2 interleaved declaration order
-	Extras  int       // 0 atoms only, 1 + parenthesised, 2 + parenthesised + unqualified call F L e R
-	NumOps  int
-	Grammar *Grammar
+	Levels []OpLevel // Levels[i] has precedence i+1
+	Order  int       // 0 ascending, 1 descending, 2 interleaved declaration order
+	Extras int       // 0 atoms only, 1 + parenthesised, 2 + parenthesised + unqualified call F L e R
+	// Unary: 0 none; 1 a prefix alternative `O1 e` REUSING the first binary
+	// operator's token, qualified tighter than every level; 2 the same at level 1.
+	Unary      int
+	UnaryLevel int
+	UnaryAssoc int
+	NumOps     int
+	Grammar    *Grammar
 	// token indices
 	Atom, LP, RP, Fn int
 }
@@ -145,8 +150,13 @@ func OpTables() []*OpTable {
 		for opsMask := 0; opsMask < 1<<k; opsMask++ {
 			for assocMask := 0; assocMask < 1<<k; assocMask++ {
 				for order := 0; order < 3; order++ {
-					for extras := 0; extras < 3; extras++ {
-						t := &OpTable{Order: order, Extras: extras}
+					for eu := 0; eu < 5; eu++ {
+						// extras 0..2 without a unary operator; then the two unary variants (with parentheses)
+						extras, unary := eu, 0
+						if eu >= 3 {
+							extras, unary = 1, eu-2
+						}
+						t := &OpTable{Order: order, Extras: extras, Unary: unary}
 						next := 0
 						for l := 0; l < k; l++ {
 							n := 1
@@ -233,6 +243,14 @@ func (t *OpTable) build() {
 	} else {
 		r.Alts = append(r.Alts, opAlts...)
 		r.Alts = append(r.Alts, atom)
+	}
+	if t.Unary > 0 {
+		t.UnaryLevel, t.UnaryAssoc = len(t.Levels)+1, Left
+		if t.Unary == 2 {
+			t.UnaryLevel, t.UnaryAssoc = 1, t.Levels[0].Assoc
+		}
+		neg := Alt{Terms: []Term{{X: Sym{K: T, I: 0}}, {X: e}}, Prec: t.UnaryLevel, Assoc: t.UnaryAssoc}
+		r.Alts = append(r.Alts, neg)
 	}
 	if t.Extras >= 1 {
 		r.Alts = append(r.Alts, paren)
